@@ -142,19 +142,34 @@ Qed.
 Definition key := list label.
 Definition kcmp : key -> key -> comparison := lexc cmp_bytes.
 
-Definition kcmp_eq := lexc_eq cmp_bytes cmp_bytes_eq.
-Definition kcmp_refl := lexc_refl cmp_bytes cmp_bytes_eq.
-Definition kcmp_anti := lexc_anti cmp_bytes cmp_bytes_anti.
-Definition kcmp_trans := lexc_trans cmp_bytes cmp_bytes_eq cmp_bytes_trans.
-Definition kcmp_gt_lt := lexc_gt_lt cmp_bytes cmp_bytes_anti.
-Definition kcmp_le_lt_trans := lexc_le_lt_trans cmp_bytes cmp_bytes_eq cmp_bytes_trans.
-Definition kcmp_lt_le_trans := lexc_lt_le_trans cmp_bytes cmp_bytes_eq cmp_bytes_trans.
-Definition kcmp_le_trans := lexc_le_trans cmp_bytes cmp_bytes_eq cmp_bytes_trans.
-Definition kcmp_app_r := lexc_app_r cmp_bytes cmp_bytes_eq.
-Definition kcmp_app_lt := lexc_app_lt cmp_bytes cmp_bytes_eq.
-Definition kcmp_app_same := lexc_app_same cmp_bytes cmp_bytes_eq.
-Definition kcmp_convex := lexc_convex cmp_bytes cmp_bytes_eq cmp_bytes_anti.
-Definition kcmp_past_subtree := lexc_past_subtree cmp_bytes cmp_bytes_eq cmp_bytes_anti.
+Lemma kcmp_eq : forall a b, kcmp a b = Eq <-> a = b.
+Proof. exact (lexc_eq cmp_bytes cmp_bytes_eq). Qed.
+Lemma kcmp_refl : forall a, kcmp a a = Eq.
+Proof. exact (lexc_refl cmp_bytes cmp_bytes_eq). Qed.
+Lemma kcmp_anti : forall a b, kcmp b a = CompOpp (kcmp a b).
+Proof. exact (lexc_anti cmp_bytes cmp_bytes_anti). Qed.
+Lemma kcmp_trans : forall a b d, kcmp a b = Lt -> kcmp b d = Lt -> kcmp a d = Lt.
+Proof. exact (lexc_trans cmp_bytes cmp_bytes_eq cmp_bytes_trans). Qed.
+Lemma kcmp_gt_lt : forall a b, kcmp a b = Gt <-> kcmp b a = Lt.
+Proof. exact (lexc_gt_lt cmp_bytes cmp_bytes_anti). Qed.
+Lemma kcmp_le_lt_trans : forall a b d, kcmp a b <> Gt -> kcmp b d = Lt -> kcmp a d = Lt.
+Proof. exact (lexc_le_lt_trans cmp_bytes cmp_bytes_eq cmp_bytes_trans). Qed.
+Lemma kcmp_lt_le_trans : forall a b d, kcmp a b = Lt -> kcmp b d <> Gt -> kcmp a d = Lt.
+Proof. exact (lexc_lt_le_trans cmp_bytes cmp_bytes_eq cmp_bytes_trans). Qed.
+Lemma kcmp_le_trans : forall a b d, kcmp a b <> Gt -> kcmp b d <> Gt -> kcmp a d <> Gt.
+Proof. exact (lexc_le_trans cmp_bytes cmp_bytes_eq cmp_bytes_trans). Qed.
+Lemma kcmp_app_r : forall p s, kcmp p (p ++ s) <> Gt.
+Proof. exact (lexc_app_r cmp_bytes cmp_bytes_eq). Qed.
+Lemma kcmp_app_lt : forall p s, s <> [] -> kcmp p (p ++ s) = Lt.
+Proof. exact (lexc_app_lt cmp_bytes cmp_bytes_eq). Qed.
+Lemma kcmp_app_same : forall p a b, kcmp (p ++ a) (p ++ b) = kcmp a b.
+Proof. exact (lexc_app_same cmp_bytes cmp_bytes_eq). Qed.
+Lemma kcmp_convex : forall p s1 s2 b,
+    kcmp (p ++ s1) b <> Gt -> kcmp b (p ++ s2) <> Gt -> exists s, b = p ++ s.
+Proof. exact (lexc_convex cmp_bytes cmp_bytes_eq cmp_bytes_anti). Qed.
+Lemma kcmp_past_subtree : forall p b d,
+    kcmp p b = Lt -> (forall s, b <> p ++ s) -> kcmp b d <> Gt -> forall s, d <> p ++ s.
+Proof. exact (lexc_past_subtree cmp_bytes cmp_bytes_eq cmp_bytes_anti). Qed.
 
 (* the labels from the root down, lower-cased *)
 Definition lkey (n : name) : key := rev (map lower_l n).
